@@ -30,7 +30,7 @@ import signal
 import sys
 import warnings
 from datetime import date, datetime, timezone
-from typing import Any, Dict, List, Optional
+from typing import Any, Dict, List, Optional, Tuple
 
 logging.disable(logging.CRITICAL)
 warnings.simplefilter("ignore")
@@ -238,14 +238,20 @@ def _make(name: str, cd: dict, classes: dict[str, type], placeholder: bool) -> t
         )
     # `pyname`: the class's __qualname__ (same module for all) - two table entries may share it
     pyname = cd.get("pyname") or name
+    def placed(c: type) -> type:
+        # WHERE the class is declared (module level / inside a class / inside a function) shows in its qualified name
+        if "build" in cd and cd["build"].get("qualname"):
+            c.__qualname__ = cd["build"]["qualname"]
+        return c
+
     if cd.get("extends"):
         # a subclass: OWN fields only (a field named like an inherited one overrides it), keyword-only so that a
         # required field may follow inherited defaults; optionally a field-less mixin among the bases
         bases: tuple = (classes[cd["extends"]],)
         if cd.get("mixin"):
             bases = (type("Mixin", (), {"describe": lambda self: type(self).__name__}),) + bases
-        return dataclasses.make_dataclass(pyname, req + opt, bases=bases, namespace=ns, kw_only=True), later
-    return dataclasses.make_dataclass(pyname, req + opt, namespace=ns), later
+        return placed(dataclasses.make_dataclass(pyname, req + opt, bases=bases, namespace=ns, kw_only=True)), later
+    return placed(dataclasses.make_dataclass(pyname, req + opt, namespace=ns)), later
 
 
 def build_classes(table: dict) -> dict[str, type]:
@@ -454,9 +460,14 @@ def node_class() -> type:
             ("kr", Optional[List["Node"]], nd()),
             ("mr", Optional[Dict[str, "Node"]], nd()),
             ("av", Any, nd()),
+            ("ll", Optional[List[List["Node"]]], nd()),
+            ("llr", Optional[List[List["Node"]]], nd()),
+            ("dl", Optional[Dict[str, List["Node"]]], nd()),
+            ("ldl", Optional[List[Dict[str, List["Node"]]]], nd()),
+            ("tu", Optional[Tuple["Node", ...]], nd()),
         ],
     )
-    res = {"nr": Optional[Node], "kr": Optional[List[Node]], "mr": Optional[Dict[str, Node]]}
+    res = {"nr": Optional[Node], "kr": Optional[List[Node]], "mr": Optional[Dict[str, Node]], "llr": Optional[List[List[Node]]]}
     for k, t in res.items():
         Node.__dataclass_fields__[k].type = t
         Node.__annotations__[k] = t
@@ -475,10 +486,26 @@ def run_graph(g: dict, reclimit: int = 1000) -> dict:
             if getattr(src, k) is None:
                 setattr(src, k, [])
             getattr(src, k).append(dst)
-        else:
+        elif k == "mr":
             if src.mr is None:
                 src.mr = {}
             src.mr[f"n{e['to']}"] = dst
+        elif k in ("ll", "llr"):  # list of lists: one inner list holding the targets
+            if getattr(src, k) is None:
+                setattr(src, k, [[]])
+            getattr(src, k)[0].append(dst)
+        elif k == "dl":  # dict of lists
+            if src.dl is None:
+                src.dl = {"k": []}
+            src.dl["k"].append(dst)
+        elif k == "ldl":  # list of dicts of lists
+            if src.ldl is None:
+                src.ldl = [{"k": []}]
+            src.ldl[0]["k"].append(dst)
+        elif k == "tu":  # tuple
+            src.tu = (src.tu or ()) + (dst,)
+        else:
+            raise ValueError(f"unknown edge kind {k}")
     root: Any = nodes[1] if g["root"] == "node" else [nodes[i] for i in range(1, g["n"] + 1)] + [nodes[1]]
     ok, out = call(cu.DataclassSerializer.serialize, root)
     if not ok:
